@@ -30,7 +30,7 @@ CLAIM = {
             "outgoing summary reads the holder's offered and the counterparty's received HTLCs, unions them and keeps "
             "the *larger* amount per hash; the incoming summary reads the holder's received and the counterparty's "
             "offered HTLCs, intersects them and keeps the *smaller* amount; summarize_payments adds the parts of one "
-            "hash. (R6.6) the payment summaries are computed from the whole supplied content: nothing drops or alters an HTLC between the request and the validated / recorded CommitmentInfo2. Does not decide the conservation inequality across "
+            "hash. (R6.6) the payment summaries are computed from the whole supplied content: nothing drops or alters an HTLC between the request and the validated / recorded CommitmentInfo2. (R6.7) the per-hash ledger entry (RoutedPayment: what each channel has in flight for the hash) is never replaced wholesale while the node runs: entries are created with entry().or_insert*, only the restart path before restore_payments may insert fresh ones, and only the two pruning functions remove entries. Does not decide the conservation inequality across "
             "channels and histories (sums over runtime maps).",
     "note": "non-permissive policy; summaries' min/max view logic (payments_summary) inspected only for slot usage",
     "technique": "static analysis: must-pass-through + provenance slices (slot agreement) + guard scenarios",
@@ -46,6 +46,7 @@ def run(ctx):
     r64(ctx)
     r65(ctx)
     r_content(ctx)
+    r67(ctx)
 
 
 def _named(fv, name):
@@ -446,3 +447,44 @@ def r_content(ctx):
                     "builders forward balances, both HTLC lists and the feerate unmodified and CommitmentInfo2::new only sorts "
                     "(same obligations as the first part of C04 R4.3)")
     _c04.content_passthrough(ctx, rid="R6.6")
+
+
+def r67(ctx):
+    ctx.rule("R6.7", "NodeState.payments entries are never overwritten while the node runs: `insert` (replace) only in "
+                     "Node::restore_node (before the channels' restore_payments), removal only in the two prune functions, "
+                     "everywhere else entry().or_insert*: approving an invoice or keysend for a hash that already has HTLCs "
+                     "in flight must not reset what the channels reported for it")
+    p = ctx.prog
+    ALLOWED = {
+        ("lightning_signer::node::Node::restore_node", "insert"):
+            "restart path, before new_from_persistence lets every channel re-report its in-flight HTLCs (R6.3 orders the two)",
+        ("lightning_signer::node::NodeState::prune_invoices", "retain"): "drops expired, fully resolved payments",
+        ("lightning_signer::node::NodeState::prune_forwarded_payments", "retain"): "drops resolved forwarded payments",
+    }
+    NONDESTRUCTIVE = ("entry", "or_insert_with", "or_insert", "or_default", "get_mut", "get", "iter", "iter_mut", "values",
+                      "values_mut", "contains_key", "keys", "len", "is_empty")
+    n = 0
+    for b in sorted(p.bodies.values(), key=lambda x: x.name):
+        if b.d.krate != "lightning_signer" or R.is_test_util(b.name):
+            continue
+        fv = None
+        for bi, c in b.calls():
+            nm = c.callee.name if c.callee else ""
+            last = nm.rsplit("::", 1)[-1]
+            if not c.args or not ("Map" in nm or "map::" in nm or "Entry" in nm):
+                continue
+            fv = fv or fnview(ctx, b, policy=False)
+            e = fv.expr(c.args[0])
+            if not any(x[0] == "field" and x[3] == "payments" and x[2].endswith("NodeState") for x in subexprs(e)):
+                continue
+            n += 1
+            if last in NONDESTRUCTIVE:
+                continue
+            on = R.owner_name(p, b)
+            ok = (on, last) in ALLOWED
+            ctx.ob("R6.7", ok, f"{on}/payments-{last}",
+                   f"`{on}` applies `{last}` to NodeState.payments (line {c.line}): the ledger entry of a payment hash - what every "
+                   "channel has in flight for it - is replaced or dropped while HTLCs for that hash may be pending, so the next "
+                   "update on another channel is balanced against zero and an approved invoice can be overpaid",
+                   where=f"{b.file}:{c.line}", sample=ALLOWED.get((on, last)))
+    ctx.floor("R6.7", "map operations on NodeState.payments", n, 8)
